@@ -44,16 +44,25 @@ where
 
       source.inner_subscribe(sctl.new_observer(
         move |_, x| {
-          let mut n = n.write().unwrap();
-          if *n == 0 {
-            sctl_next.sink_next(sbj_next.read().unwrap().observable());
+          // decide under the locks, emit after releasing them
+          let (sbj, first, last) = {
+            let mut n = n.write().unwrap();
+            let first = *n == 0;
+            *n += 1;
+            let last = *n == count;
+            let sbj = sbj_next.read().unwrap().clone();
+            if last {
+              *n = 0;
+              *sbj_next.write().unwrap() = subjects::Subject::<Item>::new();
+            }
+            (sbj, first, last)
+          };
+          if first {
+            sctl_next.sink_next(sbj.observable());
           }
-          sbj_next.read().unwrap().next(x);
-          *n += 1;
-          if *n == count {
-            sbj_next.read().unwrap().complete();
-            *sbj_next.write().unwrap() = subjects::Subject::<Item>::new();
-            *n = 0;
+          sbj.next(x);
+          if last {
+            sbj.complete();
           }
         },
         move |_, e| {
